@@ -36,14 +36,6 @@ package handlers
 //@ iface handleCommandCb
 //@   requires [args-nonempty] len(arg3) >= 1
 
-//@ func (*baseHandler).handleProtocolVersion
-//@   requires [args-nonempty] len(args) >= 1
-//@   assigns nothing
-//@   ensures [ok-shape] implies(isnil(result3), len(result0) >= 1 && result1 == len(result0))
-//@ func (*baseHandler).handleBase64
-//@   requires [argc-is-len] argc == len(args)
-//@   assigns nothing
-//@   ensures [ok-shape] implies(isnil(result2), len(result0) >= 1 && result1 == len(result0))
 //@ func (*baseHandler).handleAckCommand
 //@   requires [argc-is-len] argc == len(args)
 //@ func (*ServerHandler).handleUserCommand
@@ -57,8 +49,6 @@ package handlers
 //@ func (*HealthHandler).handleHealthCommand
 //@   calls-only (*baseHandler).send, (*baseHandler).handleAckCommand, (*baseHandler).shutdown, io/dlog.(*DLog)
 //@   requires [args-nonempty] len(args) >= 1
-//@   requires [argc-is-len] argc == len(args)
-//@ func (*readCommand).Start
 //@   requires [argc-is-len] argc == len(args)
 //@ func newMapCommand
 //@   requires [args-nonempty] len(args) >= 1
@@ -141,3 +131,24 @@ package handlers
 //@   at-call WriteString@line.Content.String() [plain-content-not-hidden] implies(h.plain, !hasPrefix(arg1, "."))
 //@   at-call WriteString@"SERVER" [plain-no-extra-bytes] !h.plain
 //@   ensures [n-in-range] 0 <= n && n <= len(p)
+
+// ---- request decoding (C12) -------------------------------------------------------------------
+// joinSp(x) is strings.Join(x, " "). The decoded command is split at single
+// spaces exactly (joining the parts gives the command back and no part contains
+// a space), so the regex handed to regex.Deserialize is the text after the
+// second space of the command, verbatim.
+//@ func (*baseHandler).handleProtocolVersion
+//@   requires [args-nonempty] len(args) >= 1
+//@   assigns nothing
+//@   ensures [ok-shape] implies(isnil(result3), len(result0) >= 1 && result1 == len(result0))
+//@   ensures [envelope] implies(len(args) == 4 && args[0] == "protocol" && args[1] == "4.1", isnil(result3) && len(result0) == 2 && result0[0] == args[2] && result0[1] == args[3])
+//@ func (*baseHandler).handleBase64
+//@   requires [argc-is-len] argc == len(args)
+//@   assigns nothing
+//@   ensures [ok-shape] implies(isnil(result2), len(result0) >= 1 && result1 == len(result0))
+//@   ensures [decodes-payload] implies(len(args) == 2 && args[0] == "base64" && ufb_b64valid(args[1]), isnil(result2) && joinSp(result0) == ufs_b64decode(args[1]))
+//@   ensures [split-at-single-spaces] implies(isnil(result2), forall(i, 0, len(result0), !contains(result0[i], " ")))
+//@ func (*readCommand).Start
+//@   requires [argc-is-len] argc == len(args)
+//@   at-call regex.Deserialize [regex-verbatim] args[0] + " " + args[1] + " " + arg0 == joinSp(args)
+//@   at-call readGlob [file-is-second-word] arg3 == args[1]
